@@ -167,11 +167,17 @@ add_binfunc!(add_int_pow, pow, X_INT, Int, X_INT, |a: &LazyBigint,
             "cannot raise zero to a zero power",
             rt.clone(),
         )?)
+    } else if b.to_usize().is_none() && !(a.is_zero() || a.abs().is_one()) {
+        // (the big-integer library panics on an exponent beyond the machine word)
+        Err(ManagedXError::new(
+            "exponent too large",
+            rt.clone(),
+        )?)
     } else {
         rt.can_allocate_by(|| {
             b.to_usize()
                 .zip(a.bits().to_usize())
-                .map(|(b, a_bits)| (a_bits / 8) * b)
+                .map(|(b, a_bits)| (a_bits / 8).saturating_mul(b))
         })?;
         Ok(XValue::Int(a.clone().pow(b.clone())))
     }
